@@ -283,6 +283,7 @@ func rangesDiffer(a, b []observe.IPRange) bool {
 
 func genDiffBase(g *rng.R) (*world.World, world.Cfg) {
 	cfg := world.DefaultCfg()
+	cfg.KindTwins, cfg.SharedNames = 0.15, 0.2
 	cfg.NamedEgressIP = 0
 	cfg.MaxWorkloads = 5
 	if g.P(0.3) {
